@@ -34,8 +34,8 @@ Definition gen_table : list pentry := [
   mkE (B "tebi") [(B "Ti")] (mkP Binary (40));
   mkE (B "pebi") [(B "Pi")] (mkP Binary (50));
   mkE (B "exbi") [(B "Ei")] (mkP Binary (60));
-  mkE (B "yobi") [(B "Yi")] (mkP Binary (70));
-  mkE (B "zebi") [(B "Zi")] (mkP Binary (80));
+  mkE (B "zebi") [(B "Zi")] (mkP Binary (70));
+  mkE (B "yobi") [(B "Yi")] (mkP Binary (80));
   mkE (B "robi") [(B "Ri")] (mkP Binary (90));
   mkE (B "quebi") [(B "Qi")] (mkP Binary (100))
 ].
